@@ -423,6 +423,9 @@ pub fn observe(m: &mut Mdl, c: &Call, r: &mut Rules, w: usize) {
             r.label("c15.client-send-interval-0");
             if !got.is_empty() {
                 r.viol("c15.pingreq-send-armed-for-0", &pre, format!("PINGREQ timer armed ({got:?}) although the effective interval is 0: {}", c.describe()));
+            } else if m.armed[Tk::PingreqSend.idx()] {
+                // "0 disables": a timer armed under an earlier, non-zero interval must not survive the send
+                r.viol("c15.pingreq-send-left-armed-for-0", &pre, format!("the effective PINGREQ interval is 0 (override {:?}, server keep alive {:?}, keep alive {}) but the timer armed earlier is still running after this send: {}", m.user_interval, m.link.ska, m.link.ka_connect, c.describe()));
             }
         } else {
             r.label("c15.client-send-rearm");
